@@ -44,13 +44,67 @@ fn api_agreement(ctx: &mut Ctx, ty: Ty, x: &[u8]) {
     }
 }
 
+/// from_tagged_slice(x) must equal: parse(x), take the registered tag off, from_cbor_value
+fn tagged_agreement(ctx: &mut Ctx, ty: Ty, x: &[u8]) {
+    ctx.eval();
+    let a = capi::from_tagged_slice(ty, x);
+    let b = match capi::ciborium_parse_exact(x) {
+        Ok(Value::Tag(n, inner)) if n == capi::crate_tag(ty) => capi::from_value(ty, *inner),
+        _ => Err(EK::Unexpected),
+    };
+    let same = match (&a, &b) {
+        (Ok(x), Ok(y)) => {
+            let mut n = Notes(vec![]);
+            capi::view(x, &mut n) == capi::view(y, &mut n)
+        }
+        (Err(_), Err(_)) => true,
+        _ => false,
+    };
+    if !same {
+        ctx.violation(
+            &format!("C13/api-layers-disagree/tagged-decode/{}", ty.name()),
+            format!("from_tagged_slice {} but parse + tag check + from_cbor_value {}", if a.is_ok() { "accepts" } else { "rejects" }, if b.is_ok() { "accepts" } else { "rejects" }),
+            J::obj(vec![("type", J::Str(ty.name())), ("hex", J::Str(if x.len() > 2048 { format!("{}...({} bytes)", hex(&x[..2048]), x.len()) } else { hex(x) }))]),
+        );
+    }
+}
+
+/// tag heads an implementation might skip as "transparent", in every legal width
+fn tag_prefixes() -> Vec<Vec<u8>> {
+    let mut out = Vec::new();
+    for tag in [55799u64, 24, 0, 1, 2, 3, 16, 17, 18, 61, 96, 97, 98, 256, 65536, u64::MAX] {
+        for width in 0..5u8 {
+            let mut x: Vec<u8> = Vec::new();
+            match width {
+                0 if tag < 24 => x.push(0xc0 | tag as u8),
+                1 if tag < 256 => x.extend_from_slice(&[0xd8, tag as u8]),
+                2 if tag < 65536 => {
+                    x.push(0xd9);
+                    x.extend_from_slice(&(tag as u16).to_be_bytes());
+                }
+                3 if tag <= u32::MAX as u64 => {
+                    x.push(0xda);
+                    x.extend_from_slice(&(tag as u32).to_be_bytes());
+                }
+                4 => {
+                    x.push(0xdb);
+                    x.extend_from_slice(&tag.to_be_bytes());
+                }
+                _ => continue,
+            }
+            out.push(x);
+        }
+    }
+    out
+}
+
 /// all prefix / suffix obligations for one accepted input
 fn one_item_only(ctx: &mut Ctx, ty: Ty, b: &[u8], tagged: bool) {
     ctx.nontrivial_bytes(b);
     ctx.count("accepted-inputs");
     let tname = if tagged { format!("{}(tagged)", ty.name()) } else { ty.name() };
     // proper prefixes
-    let ks: Vec<usize> = if b.len() <= 4096 {
+    let ks: Vec<usize> = if b.len() <= 1536 {
         (0..b.len()).collect()
     } else {
         let mut v: Vec<usize> = (0..64).collect();
@@ -113,6 +167,22 @@ fn one_item_only(ctx: &mut Ctx, ty: Ty, b: &[u8], tagged: bool) {
     }
     if !tagged {
         api_agreement(ctx, ty, b);
+    }
+    // the accepted input behind a tag head (every width): both layers must still say the same
+    if b.len() <= 4096 {
+        for pre in tag_prefixes() {
+            ctx.count("tag-prefixed");
+            let mut x = pre;
+            x.extend_from_slice(b);
+            if tagged {
+                tagged_agreement(ctx, ty, &x);
+            } else {
+                api_agreement(ctx, ty, &x);
+                if ty.tag().is_some() {
+                    tagged_agreement(ctx, ty, &x);
+                }
+            }
+        }
     }
 }
 
@@ -301,6 +371,55 @@ impl Check for C13 {
                         if capi::from_slice(ty, &m).is_ok() {
                             ctx.count("deep-accepted");
                         }
+                        // the same depth inside each taggable message, behind its tag in every width:
+                        // the tag costs the parser one nesting level in both layers alike
+                        for ty in TAGGED_TYPES {
+                            let sub = Item::Array(vec![Item::Bytes(vec![]), Item::Map(vec![]), Item::Bytes(vec![])]);
+                            let mut slots = vec![Item::Bytes(vec![]), Item::Map(vec![])];
+                            match ty {
+                                Ty::Sign => slots.extend([Item::Bytes(vec![1]), Item::Array(vec![sub])]),
+                                Ty::Sign1 | Ty::Mac0 => slots.extend([Item::Bytes(vec![1]), Item::Bytes(vec![2])]),
+                                Ty::Encrypt => slots.extend([Item::Bytes(vec![1]), Item::Array(vec![sub])]),
+                                Ty::Encrypt0 => slots.extend([Item::Bytes(vec![1])]),
+                                _ => slots.extend([Item::Bytes(vec![1]), Item::Bytes(vec![2]), Item::Array(vec![sub])]),
+                            }
+                            // splice the deep header in as the unprotected slot (bytes, not an Item: the
+                            // reference parser has its own depth limit)
+                            let shell = rcbor::det(&Item::Array(slots));
+                            let pos = shell.iter().position(|x| *x == 0xa0).unwrap();
+                            let mut body = shell[..pos].to_vec();
+                            body.extend_from_slice(&h);
+                            body.extend_from_slice(&shell[pos + 1..]);
+                            api_agreement(ctx, ty, &body);
+                            let t = ty.tag().unwrap();
+                            for width in 0..5u8 {
+                                let mut x: Vec<u8> = Vec::new();
+                                match width {
+                                    0 if t < 24 => x.push(0xc0 | t as u8),
+                                    0 => x.extend_from_slice(&[0xd8, t as u8]),
+                                    1 if t < 24 => x.extend_from_slice(&[0xd8, t as u8]),
+                                    2 => {
+                                        x.push(0xd9);
+                                        x.extend_from_slice(&(t as u16).to_be_bytes());
+                                    }
+                                    3 => {
+                                        x.push(0xda);
+                                        x.extend_from_slice(&(t as u32).to_be_bytes());
+                                    }
+                                    4 => {
+                                        x.push(0xdb);
+                                        x.extend_from_slice(&t.to_be_bytes());
+                                    }
+                                    _ => continue,
+                                }
+                                x.extend_from_slice(&body);
+                                ctx.count("deep-tagged");
+                                tagged_agreement(ctx, ty, &x);
+                                if capi::from_tagged_slice(ty, &x).is_ok() {
+                                    ctx.count("deep-tagged-accepted");
+                                }
+                            }
+                        }
                     }
                 } else if idx < 27 {
                     let n = [(1usize << 20) - 1, 1 << 20, (1 << 20) + 1, 2 << 20][(idx - 23) as usize];
@@ -391,7 +510,7 @@ impl Check for C13 {
         }
     }
     fn rule(&self) -> String {
-        "accepted inputs of all 25 types (generated valid values in random encodings, test-suite vectors, all strings <= 2 bytes) x every proper prefix (sampled above 4 KiB) x 270 suffixes (all single bytes, a copy of the input, valid items, garbage, truncated heads), tagged entry points likewise; the map inside a protected bstr truncated at every offset / followed by 8 suffixes in every message type and SuppPubInfo; from_slice vs from_cbor_value(parse) on accepted, prefix, suffixed, mutated and short inputs; to_vec vs serialise(to_cbor_value) and the tagged analogue on generated values (incl. ProtectedHeader values carrying wire bytes). Non-trivial = distinct accepted inputs / distinct encodings.".into()
+        "accepted inputs of all 25 types (generated valid values in random encodings, test-suite vectors, all strings <= 2 bytes) x every proper prefix (sampled above 1.5 KiB) x 270 suffixes (all single bytes, a copy of the input, valid items, garbage, truncated heads), tagged entry points likewise; the map inside a protected bstr truncated at every offset / followed by 8 suffixes in every message type and SuppPubInfo; from_slice vs from_cbor_value(parse) on accepted, prefix, suffixed, mutated and short inputs; every accepted input behind 16 tag numbers in every head width (self-described CBOR, encoded-CBOR, bignum, COSE tags ...) through both layers; bodies nested 240-262 deep inside each taggable message behind its tag in every width; to_vec vs serialise(to_cbor_value) and the tagged analogue on generated values (incl. ProtectedHeader values carrying wire bytes). Non-trivial = distinct accepted inputs / distinct encodings.".into()
     }
     fn assumptions(&self) -> Vec<String> {
         let mut v = super::std_assumptions();
